@@ -50,7 +50,7 @@ theorem numBits_nat (n : Nat) : PyE.numBits (n : Int) = (numBits n : Int) := by
 theorem bytesToNumber_eq (b : Bytes) : PyE.bytesToNumber b = (beDecode b : Int) := Eq.trans rfl rfl
 theorem numberToByteArray_nat (x k : Nat) : PyE.numberToByteArray (x : Int) (k : Int) = .ok (beEncode k x) := by
   unfold PyE.numberToByteArray
-  have : ¬ ((x : Int) < 0 ∨ (k : Int) < 0) := by omega
+  have : ¬ ((x : Int) < 0) := by omega
   simp only [this, if_false, Int.toNat_natCast]
 theorem numberToByteArray_nat2 (x : Nat) : PyE.numberToByteArray (x : Int) 2 = .ok (beEncode 2 x) :=
   numberToByteArray_nat x 2
